@@ -916,6 +916,11 @@ impl<'cmd> Parser<'cmd> {
 
         let skip = self.flag_subcmd_skip;
         self.flag_subcmd_skip = 0;
+        if skip == 0 {
+            // Not revisiting a group of short flags after a flag subcommand: any position saved
+            // for an earlier group is stale
+            self.flag_subcmd_at = None;
+        }
         let res = short_arg.advance_by(skip);
         debug_assert_eq!(
             res,
